@@ -203,6 +203,45 @@ function vectors(parser, U) {
   return s;
 }
 
+// Generated collision layouts: k types with the SAME name in k files whose directories share prefixes of
+// different lengths (every subset of the path set of size 2..maxK). File i declares `T` with its own shape, a
+// generic `G<X>` of its own, and a user `Use = { t: T }`; the entry file imports all of them under local names and
+// also instantiates one generic of its own with each T. Expectation: each parser follows its own declaration.
+export const COLLISION_PATHS = ["t.ts", "a/t.ts", "a/x/t.ts", "a/y/t.ts", "x/t.ts", "b/x/t.ts", "b/y/t.ts", "x/a/t.ts"];
+export function collisionFamily(maxK) {
+  const out = [];
+  const n = COLLISION_PATHS.length;
+  for (let mask = 1; mask < 1 << n; mask++) {
+    const idx = [];
+    for (let i = 0; i < n; i++) if (mask & (1 << i)) idx.push(i);
+    if (idx.length < 2 || idx.length > maxK) continue;
+    for (const generics of [true, false]) {
+    const files = {};
+    const imports = [];
+    const entries = [];
+    const expect = {};
+    for (const i of idx) {
+      const path = COLLISION_PATHS[i];
+      files[path] = `export type T = { f${i}: ${i} };\nexport type G<X> = { g${i}: X };\nexport type Use = { t: T };`;
+      imports.push(`import { T as T${i}, G as G${i}, Use as U${i} } from "./${path.replace(/\.ts$/, "")}";`);
+      entries.push(`A${i}: T${i}`, `C${i}: U${i}`);
+      if (generics) entries.push(`B${i}: Box<T${i}>`, `D${i}: G${i}<T${i}>`);
+      const own = `({"f${i}": ${i}})`;
+      const foreign = idx.filter((j) => j !== i).map((j) => `({"f${j}": ${j}})`);
+      expect[`A${i}`] = [[own, true], ...foreign.map((f) => [f, false])];
+      expect[`C${i}`] = [[`({"t": ${own}})`, true], ...foreign.map((f) => [`({"t": ${f}})`, false])];
+      if (generics) {
+        expect[`B${i}`] = [[`({"box": ${own}})`, true], ...foreign.map((f) => [`({"box": ${f}})`, false])];
+        expect[`D${i}`] = [[`({"g${i}": ${own}})`, true], ...foreign.map((f) => [`({"g${i}": ${f}})`, false]), ...idx.filter((j) => j !== i).map((j) => [`({"g${j}": ${own}})`, false])];
+      }
+    }
+    files["entry.ts"] = `${imports.join("\n")}\ntype Box<X> = { box: X };\nexport const Parsers = parse.buildParsers<{ ${entries.join(", ")} }>();`;
+    out.push({ name: "same-name" + (generics ? "+generics:" : ":") + idx.map((i) => COLLISION_PATHS[i]).join("+"), files, expect, keys: Object.keys(expect) });
+    }
+  }
+  return out;
+}
+
 // hand-written collision / unresolvable layouts
 function specialLayouts() {
   const out = [];
@@ -351,7 +390,9 @@ export async function run() {
       );
     }
     // special layouts
-    for (const sp of specialLayouts()) {
+    const collisions = collisionFamily(TIER === "thorough" ? 4 : 3);
+    stats.collisionLayouts = collisions.length;
+    for (const sp of [...specialLayouts(), ...collisions]) {
       stats.special++;
       const r = classify(await pool_.request({ files: sp.files, settings: DEFAULT_SETTINGS }));
       const detail = { engine: "E-src", layout: sp.name, files: sp.files };
@@ -384,7 +425,7 @@ export async function run() {
     coverage: {
       evaluations: stats.evaluations,
       distinct_nontrivial: outcomes.size,
-      rule: "7 base programs (alias chain, generics, interface extends chain, enums, const/typeof, mutual recursion, discriminated variants) × every set partition of their declarations into <=3 blocks × {first block in the entry file | all blocks in dependency files} × 10 uniform import/export styles + a mixed per-edge assignment + .d.ts and .tsx file names" + (TIER === "thorough" ? "" : " (quick: seed-selected half of the layouts)") + "; oracle: no diagnostics, accept vectors over U(T) (default+strict) and hash256 equal to the single-file program; plus 4 collision layouts with generator-known expectations and 9 unresolvable layouts that must give a diagnostic. distinct_nontrivial = base parsers with both verdicts",
+      rule: "7 base programs (alias chain, generics, interface extends chain, enums, const/typeof, mutual recursion, discriminated variants) × every set partition of their declarations into <=3 blocks × {first block in the entry file | all blocks in dependency files} × 10 uniform import/export styles + a mixed per-edge assignment + .d.ts and .tsx file names" + (TIER === "thorough" ? "" : " (quick: seed-selected half of the layouts)") + "; oracle: no diagnostics, accept vectors over U(T) (default+strict) and hash256 equal to the single-file program; plus 4 hand-written collision layouts and the generated same-name family (the same type name, generic name and user name declared in k files, every k-subset (k = 2.." + (TIER === "thorough" ? 4 : 3) + ") of 8 paths whose directories share prefixes of different lengths; 4 parsers per file with generator-known expectations) and 9 unresolvable layouts that must give a diagnostic. distinct_nontrivial = base parsers with both verdicts",
       samples,
       exhaustive: TIER === "thorough",
       layouts_compiled: stats.layouts,
